@@ -31,6 +31,8 @@ VARIABLES
   lateFinal,          \* role 1 had been final (>= ARD confirmations at a sync point) when the preimage was learned
   aheadH, rewoundE,   \* the monitor's tip was at this height (> the block's) when it was told that role 1 is
                       \* confirmed (tip announced first / late confirmation); it was later rewound below it
+  quiet,              \* the monitor's last notification was a best_block_updated that announced a
+                      \* reorganisation: no block processing has run since (see LiveOf)
   lastH1, lowered,    \* height at which the monitor was last told role 1 is confirmed; it was re-confirmed
                       \* LOWER through transactions_confirmed after transaction_unconfirmed
   readyAt,            \* blocks in which the funding had >= minDepth confirmations at a sync point
@@ -41,7 +43,7 @@ VARIABLES
   over,               \* a role that was final has been reorganised away (beyond the property)
   v                   \* verdict of the last sync record
 
-tvars == <<hvars, target, l, tp, cf, ifc, gv, phase, kind, histId, failTrig, baseConf, inputs, minDepth, tlOuts, tlHeight, in1Out, holderStruct, pre, lateConf, claimH, rewound, lateFinal, aheadH, rewoundE, lastH1, lowered, readyAt, commitSeen, reloaded,
+tvars == <<hvars, target, l, tp, cf, ifc, gv, phase, kind, histId, failTrig, baseConf, inputs, minDepth, tlOuts, tlHeight, in1Out, holderStruct, pre, lateConf, claimH, rewound, lateFinal, aheadH, rewoundE, quiet, lastH1, lowered, readyAt, commitSeen, reloaded,
            ever, over, v>>
 
 Rec == ndJsonDeserialize(IOEnv.TRACE)
@@ -87,7 +89,7 @@ TraceInit ==
   /\ ifc = [o \in Objs |-> "none"] /\ gv = [o \in Objs |-> FALSE]
   /\ phase = "dead" /\ kind = "" /\ histId = 0 /\ failTrig = <<>> /\ baseConf = 0 /\ inputs = <<>>
   /\ minDepth = 0 /\ tlOuts = {} /\ tlHeight = 0 /\ readyAt = {} /\ commitSeen = FALSE
-  /\ in1Out = {} /\ holderStruct = FALSE /\ pre = FALSE /\ lateConf = -1 /\ claimH = -1 /\ rewound = FALSE /\ lateFinal = FALSE /\ aheadH = -1 /\ rewoundE = FALSE /\ lastH1 = -1 /\ lowered = FALSE
+  /\ in1Out = {} /\ holderStruct = FALSE /\ pre = FALSE /\ lateConf = -1 /\ claimH = -1 /\ rewound = FALSE /\ lateFinal = FALSE /\ aheadH = -1 /\ rewoundE = FALSE /\ quiet = FALSE /\ lastH1 = -1 /\ lowered = FALSE
   /\ reloaded = FALSE /\ ever = {} /\ over = FALSE
   /\ v = AllGood
 
@@ -113,11 +115,11 @@ TReset ==
   /\ tp' = [o \in Objs |-> 0] /\ cf' = [o \in Objs |-> NoConf]
   /\ ifc' = [o \in Objs |-> "none"] /\ gv' = [o \in Objs |-> FALSE]
   /\ phase' = "idle" /\ reloaded' = FALSE /\ ever' = {} /\ over' = FALSE
-  /\ readyAt' = {} /\ commitSeen' = FALSE /\ lateConf' = -1 /\ claimH' = -1 /\ rewound' = FALSE /\ lateFinal' = FALSE /\ aheadH' = -1 /\ rewoundE' = FALSE /\ lastH1' = -1 /\ lowered' = FALSE
+  /\ readyAt' = {} /\ commitSeen' = FALSE /\ lateConf' = -1 /\ claimH' = -1 /\ rewound' = FALSE /\ lateFinal' = FALSE /\ aheadH' = -1 /\ rewoundE' = FALSE /\ quiet' = FALSE /\ lastH1' = -1 /\ lowered' = FALSE
 
 Same == UNCHANGED <<hvars, kind, histId, failTrig, baseConf, inputs, minDepth, tlOuts, tlHeight, in1Out, holderStruct, readyAt, commitSeen, ever, over>>
 
-Same2 == UNCHANGED <<pre, lateConf, claimH, rewound, lateFinal, aheadH, rewoundE, lastH1, lowered>>
+Same2 == UNCHANGED <<pre, lateConf, claimH, rewound, lateFinal, aheadH, rewoundE, quiet, lastH1, lowered>>
 \* the monitor is rewound to height h
 Rewinds(o, h) == /\ rewound' = (rewound \/ (o = "mon" /\ claimH >= 0 /\ h < claimH))
                  /\ rewoundE' = (rewoundE \/ (o = "mon" /\ aheadH >= 0 /\ h < aheadH))
@@ -142,6 +144,7 @@ TConn ==
      /\ CanConnect(tp[o], ifc[o], b)
      /\ tp' = Upd(tp, o, b) /\ cf' = Upd(cf, o, ConfAfterConnect(cf[o], b)) /\ ifc' = Upd(ifc, o, "listen")
      /\ lastH1' = IF o = "mon" /\ 1 \in txin[b] THEN Height(b) ELSE lastH1
+     /\ quiet' = (quiet /\ o # "mon")
   /\ Same /\ UNCHANGED <<pre, lateConf, claimH, rewound, lateFinal, aheadH, rewoundE, lowered, target, gv, phase, reloaded, v>>
 
 TDisc ==
@@ -151,7 +154,7 @@ TDisc ==
      /\ CanDisconnect(tp[o], ifc[o], f)
      /\ tp' = Upd(tp, o, f) /\ cf' = Upd(cf, o, ConfAfterRewind(cf[o], f)) /\ ifc' = Upd(ifc, o, "listen")
      /\ Rewinds(o, Height(f))
-  /\ Same /\ UNCHANGED <<pre, lateConf, claimH, lateFinal, aheadH, lastH1, lowered, target, gv, phase, reloaded, v>>
+  /\ Same /\ UNCHANGED <<pre, lateConf, claimH, lateFinal, aheadH, quiet, lastH1, lowered, target, gv, phase, reloaded, v>>
 
 TTxs ==
   /\ IsEvent("txs") /\ phase = "moving"
@@ -161,6 +164,7 @@ TTxs ==
      /\ lastH1' = IF o = "mon" /\ 1 \in sel THEN Height(b) ELSE lastH1
      /\ lowered' = (lowered \/ (o = "mon" /\ 1 \in sel /\ lastH1 > Height(b)))
      /\ aheadH' = IF o = "mon" /\ 1 \in sel /\ Height(tp[o]) > Height(b) /\ Height(tp[o]) > aheadH THEN Height(tp[o]) ELSE aheadH
+     /\ quiet' = (quiet /\ o # "mon")
   /\ Same /\ UNCHANGED <<pre, lateConf, claimH, rewound, lateFinal, rewoundE, target, tp, phase, reloaded, v>>
 
 TBest ==
@@ -169,6 +173,7 @@ TBest ==
      /\ CanBest(tp[o], cf[o], ifc[o], b)
      /\ tp' = Upd(tp, o, b) /\ cf' = Upd(cf, o, ConfAfterBest(tp[o], cf[o], b)) /\ ifc' = Upd(ifc, o, "confirm")
      /\ IF Anc(tp[o], b) THEN UNCHANGED <<rewound, rewoundE>> ELSE Rewinds(o, Height(b))
+     /\ quiet' = IF o = "mon" THEN ~Anc(tp[o], b) ELSE quiet
   /\ Same /\ UNCHANGED <<pre, lateConf, claimH, lateFinal, aheadH, lastH1, lowered, target, gv, phase, reloaded, v>>
 
 TUnconf ==
@@ -180,14 +185,14 @@ TUnconf ==
      /\ LET hs == {Height(cf[o][q]) - 1 : q \in Stale(cf[o])} IN
         IF hs = {} THEN UNCHANGED <<rewound, rewoundE>>
         ELSE Rewinds(o, CHOOSE x \in hs : \A y \in hs : x <= y)
-  /\ Same /\ UNCHANGED <<pre, lateConf, claimH, lateFinal, aheadH, lastH1, lowered, target, tp, gv, phase, reloaded, v>>
+  /\ Same /\ UNCHANGED <<pre, lateConf, claimH, lateFinal, aheadH, quiet, lastH1, lowered, target, tp, gv, phase, reloaded, v>>
 
 \* the user claims the inbound payment: the node learns the preimage (at a synchronisation point)
 TClaim ==
   /\ IsEvent("claim") /\ phase = "idle" /\ in1Out # {} /\ ~pre
   /\ pre' = TRUE /\ lateConf' = Depth(1, target) /\ claimH' = Height(target)
   /\ lateFinal' = (Place(1, target) # None /\ <<1, Place(1, target)>> \in ever \cup NowBuried)
-  /\ Same /\ UNCHANGED <<rewound, aheadH, rewoundE, lastH1, lowered, target, tp, cf, ifc, gv, phase, reloaded, v>>
+  /\ Same /\ UNCHANGED <<rewound, aheadH, rewoundE, quiet, lastH1, lowered, target, tp, cf, ifc, gv, phase, reloaded, v>>
 
 \* diagnostics: what the node emitted and when (judged at the sync record)
 TNote ==
@@ -200,10 +205,13 @@ SpentInChain(op) == \E r \in Roles : Place(r, target) # None /\ \E i \in 1..Len(
 \* Claims are compared by WHAT is being claimed (how claims are aggregated into transactions and at
 \* which fee may differ): the outpoints, of all pending claim transactions, that can still be spent
 \* on the best chain.  A time-locked claim (HTLC timeout) counts only from the height at which it can be
-\* broadcast: below it, a claim made while the chain was higher may or may not still be pending.
+\* broadcast: below it, a claim made while the chain was higher may or may not still be pending.  Nor
+\* does it count right after a best_block_updated that announced a reorganisation: ChannelMonitor
+\* does no block processing in that call, time-locked packages put back by the reorganisation are
+\* looked at again with the next block (one block of latency, not a lost claim).
 LiveOf(s) == {op \in UNION {ToSet(s[i]) : i \in 1..Len(s)} :
                  /\ ConfirmedTx(op[1]) /\ ~SpentInChain(op)
-                 /\ op \in tlOuts => Height(target) >= tlHeight}
+                 /\ op \in tlOuts => (Height(target) >= tlHeight /\ ~quiet)}
 AllClaimed(s) == UNION {ToSet(s[i]) : i \in 1..Len(s)}
 FundingIdx == IF fundingRole THEN 1 ELSE 5
 ClassesOf(op) ==
@@ -276,7 +284,7 @@ TSync ==
               claimsIn |-> (ov \/ ~pre \/ Place(1, target) = None
                             \/ \A op \in in1Out : SpentInChain(op) \/ op \in AllClaimed(r.R.claims) \/ Waived(op))]
   /\ phase' = "idle"
-  /\ UNCHANGED <<hvars, target, tp, cf, ifc, gv, kind, histId, failTrig, baseConf, inputs, minDepth, tlOuts, tlHeight, in1Out, holderStruct, pre, lateConf, claimH, rewound, lateFinal, aheadH, rewoundE, lastH1, lowered, reloaded>>
+  /\ UNCHANGED <<hvars, target, tp, cf, ifc, gv, kind, histId, failTrig, baseConf, inputs, minDepth, tlOuts, tlHeight, in1Out, holderStruct, pre, lateConf, claimH, rewound, lateFinal, aheadH, rewoundE, quiet, lastH1, lowered, reloaded>>
 
 TraceNext == TReset \/ TReload \/ TClaim \/ TBegin \/ TConn \/ TDisc \/ TTxs \/ TBest \/ TUnconf \/ TNote \/ TSync
 
